@@ -65,7 +65,7 @@ def build_jobs(tier, seed):
             functions=["GMGPolar::chooseNumberOfLevels"], covers={"COVER:reached_end"})
     j.rules, j.hashes = rules, hashes
     import gridgen
-    return [j] + gridgen.build_jobs(tier, seed)
+    return [j] + gridgen.build_jobs(tier, seed, anisotropic=True)
 
 
 EXPLANATION = (
@@ -77,8 +77,12 @@ EXPLANATION = (
     "symbolic reals): the verbatim bodies of constructRadialDivisions (uniform branch), constructAngularDivisions, refineGrid, divideVector, "
     "initializeDistances and coarseningGrid over an array + size model of std::vector: radii strictly increasing from exactly R0 to exactly "
     "Rmax, fine radii are midpoints, angles uniform with antipodes, the grid of one bisection less is the every-second-node subgrid, spacing "
-    "arrays are the coordinate differences, coarsening keeps every second node and both boundaries, every subscript within size. NOT "
-    "decided: anisotropic division (std::set), checkParameters (std algorithms / lambdas), file round trip (iostream), rejection paths.")
+    "arrays are the coordinate differences, coarsening keeps every second node and both boundaries, every subscript within size. "
+    "Anisotropic division: the refinement-window computation and its first read loop (verbatim prefix of RadialAnisotropicDivision, plain "
+    "CBMC on IEEE doubles, nr_exp / anisotropic_factor listed, every refinement radius satisfying the function's own precondition): window "
+    "inside the uniform division, double -> int conversions defined, log2 argument >= 1 (two defects found here were repaired: F16, F17). "
+    "NOT decided: the std::set based refinement after the window, checkParameters (std algorithms / lambdas), file round trip (iostream), "
+    "rejection paths.")
 
 
 def levels_replay_cb(job, key, label, rec):
